@@ -15,6 +15,16 @@ CHECKS = {
    "Every interleaving (2 clients: unbounded; 3 clients: preemption-bounded) of the real ObjectStoreMetadataClient mutation paths, incl. create races, legacy-fallback reads, conflict/retry and retry exhaustion; every catalog version checked for chunk-map/time-index agreement; final state must equal a real-time-consistent sequential order of exactly the Ok operations.",
    "InMemory object store's conditional PUT is atomic; one request = one atomic step; tokio back-off timers fire eagerly (no shared-state access between wake-up and next request)",
    "DESIGN.md section 5 C02"),
+ "C05": (ENGINE_B, "model_checking",
+   "explicit-state search (BFS with deduplication on directory image + reference state) over WAL operation histories executed on the real WriteAheadLog, with crash images derived from directory snapshots; every byte offset of the final crash enumerated",
+   "All histories up to depth 3 (quick) / 5 (thorough) over append small/large, truncate_before, persist_flushed_seq, reopen and crash-during-operation (structural cuts) for three segment limits (rotate every entry, two entries per segment, never); from every distinct state every byte offset of a crash during append / truncate / flushed_seq write is followed by reopen-check-append-reopen-check against a reference log: exactly the complete entries, in order, once; sequence numbers above everything acknowledged.",
+   "sync on every write: returned operations are durable; torn write = prefix of header++payload; atomic ordered create/unlink; persist_flushed_seq is called with the highest acknowledged sequence number",
+   "DESIGN.md section 5 C05"),
+ "C07": (ENGINE_B, "model_checking",
+   "explicit-state enumeration of all operation histories up to a depth, executed in lock-step on both real metadata back ends, every boundary query range compared with a reference interval map",
+   "Every history of depth <=3 (quick; 4 with a reduced alphabet in thorough) over register (3 paths x 9-11 intervals incl. hour boundaries +-1 ns, negative, zero-length, multi-day, re-registration), delete, complete_compaction (known / unknown target) on LocalMetadataClient and ObjectStoreMetadataClient in lock-step plus a fresh object-store client; after each history all ordered pairs of ~40 boundary points are queried (inverted ranges included, judged leniently).",
+   "the answer for an inverted range is only required to be panic-free, error-free, duplicate-free and inside the overlap formula; no deduplication of histories",
+   "DESIGN.md section 5 C07"),
  "C08": (ENGINE_A, "model_checking",
    "stateless model checking of the real code: exhaustive DFS over all interleavings of 2-3 nodes' lease operations at object-store-request granularity, wall-clock jumps as extra transitions, state caching",
    "Every interleaving of acquire/renew/complete/fail/scavenge by 2 nodes (3 in thorough, preemption-bounded) combined with every placement of <=2 (3) wall-clock jumps (+150 s, +301 s); invariants at every quiescent state: no lease-file version holds two live leases sharing a chunk, no two holders believe they hold a shared chunk, a reclaimed holder's renew is refused, abandoned leases are acquirable after expiry; also on the in-memory client at call granularity.",
